@@ -150,6 +150,15 @@ def build(run):
         yield "sum_k (sum_b J_kb u_b) K_ak", lambda m, t, g: S(C.Product(S(C.Product(X(C.Jacobian(m), k, b), U("u", (t,), b)), b), X(C.JacobianInverse(m), a, k)), k)
         yield "SHADOW sum_k K_jk (sum_j J_kj u_j)", lambda m, t, g: S(C.Product(X(C.JacobianInverse(m), j, k), S(C.Product(X(C.Jacobian(m), k, j), U("u", (t,), j)), j)), k)
         yield "SHADOW rest_j * sum_k (sum_j K_ak J_kj u_j)", lambda m, t, g: S(C.Product(U("r", (t,), j), S(C.Product(C.Product(X(C.JacobianInverse(m), a, k), X(C.Jacobian(m), k, j)), U("u", (t,), j)), j)), k) if False else S(S(C.Product(C.Product(X(C.JacobianInverse(m), a, k), X(C.Jacobian(m), k, j)), U("u", (t,), j)), j), k)
+        # two deltas over one summation index, the second inside a nested sum that REUSES (shadows) the first delta's free index: the guarded contraction is
+        # refused and the fall-back rewrites (sum interchange, push into the inner sum) must still see every factor
+        c_i, p_i, q_i = Index(), Index(), Index()
+        yield "SHADOW two deltas: (sum_q K_jq J_qk) sum_j((sum_p K_cp J_pk) h_j f_j)", lambda m, t, g: S(C.Product(
+            S(C.Product(X(C.JacobianInverse(m), j, q_i), X(C.Jacobian(m), q_i, k)), q_i),
+            S(C.Product(C.Product(S(C.Product(X(C.JacobianInverse(m), c_i, p_i), X(C.Jacobian(m), p_i, k)), p_i), U("h", (t,), j)), U("f", (t,), j)), j)), k)
+        yield "SHADOW two deltas: I_jk sum_j(I_ck h_j f_j)", lambda m, t, g: S(C.Product(X(C.Identity(t), j, k), S(C.Product(C.Product(X(C.Identity(t), c_i, k), U("h", (t,), j)), U("f", (t,), j)), j)), k)
+        yield "SHADOW two deltas: sum_j(I_ck h_j f_j) I_jk (operand order)", lambda m, t, g: S(C.Product(S(C.Product(C.Product(X(C.Identity(t), c_i, k), U("h", (t,), j)), U("f", (t,), j)), j), X(C.Identity(t), j, k)), k)
+        yield "SHADOW two deltas and a third factor: I_jk u_k sum_j(I_ck h_j)", lambda m, t, g: S(C.Product(C.Product(X(C.Identity(t), j, k), U("u", (t,), k)), S(C.Product(X(C.Identity(t), c_i, k), U("h", (t,), j)), j)), k)
         yield "I_ak u_k", lambda m, t, g: S(C.Product(X(C.Identity(t), a, k), U("u", (t,), k)), k)
         yield "I_ka u_k v_k", lambda m, t, g: S(C.Product(C.Product(X(C.Identity(t), k, a), U("u", (t,), k)), U("v", (t,), k)), k)
         yield "I_0k u_k (fixed)", lambda m, t, g: S(C.Product(X(C.Identity(t), 0, k), U("u", (t,), k)), k)
